@@ -1,6 +1,7 @@
 import PasslibVerif.Lemmas.Hotp
 import PasslibVerif.Lemmas.Totp
 import PasslibVerif.Lemmas.TotpKey
+import PasslibVerif.Lemmas.Hmac
 /-
 C13 — One-time codes follow RFC 4226 / RFC 6238.
 The HMAC digest is a parameter here (its equality with RFC 2104 is `hmac_eq_rfc2104` in
@@ -58,6 +59,11 @@ theorem pack_uint64 (c : Nat) (h : c < 2 ^ 64) :
   refine ⟨by simp [toDigits_length], ?_, ?_⟩
   · intro b hb; exact toDigits_lt 256 (by decide) 8 c b (List.mem_reverse.1 hb)
   · rw [List.reverse_reverse]; exact ofDigits_toDigits 256 (by decide) 8 c (by simpa using h)
+
+/-- the keyed MAC passlib compiles for the key is RFC 2104 HMAC (any digest, any key length) -/
+theorem hmac_eq_rfc2104 (H : Bytes → Bytes) (B D : Nat) (hH : ∀ x, Bytes.WF (H x) ∧ (H x).length = D)
+    (key msg : Bytes) (hk : Bytes.WF key) :
+    Model.Hmac.compileHmac H B D key msg = Spec.Hmac.hmac H B key msg := Lemmas.Hmac.hmac_eq_rfc2104 H B D hH key msg hk
 
 /-! ### keys: base32 / hex / decorations denote the same key -/
 theorem base32_key_roundtrip (k : Bytes) (h : Bytes.WF k) : decodeKey .base32 (base32Key k) = .ok k :=
